@@ -321,7 +321,8 @@ class model_parse(Contract):
     doc = ('TlvModel.parse: every element handed to a field lies entirely inside the wire; a recognised element is matched to '
            'the first field of that type at or after the current position; an unrecognised critical element raises DecodeError '
            'unless ignore_critical, an unrecognised non-critical one is skipped and changes nothing; each iteration consumes '
-           '>= 2 bytes (linear time); only documented decoding errors escape')
+           '>= 2 bytes (linear time); it returns only after the whole wire has been examined element by element; only '
+           'documented decoding errors escape')
 
     def setup(self, cx):
         fields = AbsFields(cx.run)
@@ -367,4 +368,8 @@ class model_parse(Contract):
         return parse_model(cx.it, cls, wire, markers if markers is not None else {}, node)
 
     def post(c, cx, result, cls, wire, markers, ignore_critical):
-        return {'returns_instance': isinstance(result, AbsInstance)}
+        loc = cx.it.top_locals
+        return {'returns_instance': isinstance(result, AbsInstance),
+                # the scan may end only at the end of the wire: no element is left unexamined (so none escapes the
+                # criticality test of the loop step), whatever position the field list has reached
+                'every_element_of_the_wire_was_examined': zint(loc['offset']) >= zint(wire.length)}
